@@ -446,6 +446,10 @@ struct Res {
     std::vector<const TSValueTypeMetaData *> subst;  // real substitution of the winner's input params (nullptr = skipped)
 };
 int OPN = 0;
+bool starts_with_lit(const char *s, const char *lit) {
+    for (; *lit; ++s, ++lit) if (*s != *lit) return false;
+    return true;
+}
 
 int pos_of(const std::string &label, const Cand *const *fam, int n) {
     for (int i = 0; i < n; i++) if (label == fam[i]->label) return i;
@@ -490,11 +494,13 @@ Res run_resolve(const Cand *const *fam, int n, const int *perm, const ArgTuple &
                             obs.last.ambiguous.empty() && r.winner >= 0 && obs.last.selected->label == fam[r.winner]->label;
         if (obs.last.selected.has_value()) r.rank = obs.last.selected->rank;
     } catch (const OperatorResolutionError &e) {
+        // only the literal heads of the texts are inspected: further on they may embed a symbolic size digit
         const char *m = e.what();
-        bool nomatch = std::strncmp(m, "no matching overload", 20) == 0;
-        bool ambig = std::strncmp(m, "ambiguous overloads", 19) == 0;
+        bool nomatch = starts_with_lit(m, "no matching overload");
+        bool ambig = starts_with_lit(m, "ambiguous overloads");
         r.kind = nomatch ? R_NOMATCH : ambig ? R_AMBIG : R_OTHER;
-        r.channels_agree = obs.count == before + 1 && !obs.last.selected.has_value() && obs.last.error == m &&
+        r.channels_agree = obs.count == before + 1 && !obs.last.selected.has_value() && obs.last.error.size() >= 19 &&
+                           starts_with_lit(obs.last.error.c_str(), nomatch ? "no matching overload" : "ambiguous overloads") &&
                            (ambig ? !obs.last.ambiguous.empty() : obs.last.ambiguous.empty());
         if (ambig && !obs.last.ambiguous.empty()) r.rank = obs.last.ambiguous[0].rank;
     } catch (const std::exception &) {
